@@ -550,7 +550,7 @@ class OptimizationProblem(DataStoreAccessor, metaclass=ABCMeta):
                     )
                 all_bounds[i] = Timeseries(v2.times, np.broadcast_to(v1, v2.values.shape))
             elif isinstance(v1, (int, float)) and isinstance(v2, np.ndarray):
-                all_bounds[i] = np.full_like(v2, v1)
+                all_bounds[i] = np.full_like(v2, v1, dtype=np.float64)
 
         a, A, b, B = all_bounds
 
